@@ -19,6 +19,8 @@ type evalCtx struct {
 	oldHeap Heap
 	oldBind map[string]SV
 	lookup  func(name string) (SV, bool) // fallback resolution (loop variables, locals)
+	noOpaqueDefs bool                    // assumption of a callee contract: opaque specs stay uninterpreted
+	facts   *[]string                    // when set, defining equations of spec applications are collected here instead of being asserted globally
 	depth   int
 	what    string
 }
@@ -547,7 +549,9 @@ func (c *evalCtx) fieldOf(base SV, name string) SV {
 		for i := 0; i < st.NumFields(); i++ {
 			if st.Field(i).Name() == name {
 				key, sort := enc.fieldHeapKey(pt.Elem(), i)
-				return SV{t: st.Field(i).Type(), term: fmt.Sprintf("(select %s %s)", enc.heapGet(c.heap, key, sort), base.term)}
+				res := SV{t: st.Field(i).Type(), term: fmt.Sprintf("(select %s %s)", enc.heapGet(c.heap, key, sort), base.term)}
+				c.typeFact(res)
+				return res
 			}
 		}
 		// embedded fields (one level)
@@ -566,7 +570,9 @@ func (c *evalCtx) fieldOf(base SV, name string) SV {
 		si := enc.R.structOf(t)
 		for i := 0; i < st.NumFields(); i++ {
 			if st.Field(i).Name() == name {
-				return SV{t: st.Field(i).Type(), term: fmt.Sprintf("(%s %s)", si.fields[i], base.term)}
+				res := SV{t: st.Field(i).Type(), term: fmt.Sprintf("(%s %s)", si.fields[i], base.term)}
+				c.typeFact(res)
+				return res
 			}
 		}
 		for i := 0; i < st.NumFields(); i++ {
@@ -832,6 +838,23 @@ func (c *evalCtx) applySpec(sf *SpecFunc, args []ast.Expr) SV {
 			name := "spec!" + sf.Name
 			enc.R.extra(fmt.Sprintf("(declare-fun %s (%s) %s)", name, strings.Join(ss, " "), enc.R.sortOf(res.t)))
 			app := fmt.Sprintf("(%s %s)", name, strings.Join(ts, " "))
+			if c.facts != nil && c.noOpaqueDefs && sf.Opaque && !enc.unfolds(sf.Name) {
+				return SV{t: res.t, term: app}
+			}
+			if c.facts != nil {
+				// local mode: the equation travels with the formula that uses the application
+				dup := false
+				eq := fmt.Sprintf("(= %s %s)", app, res.term)
+				for _, f := range *c.facts {
+					if f == eq {
+						dup = true
+					}
+				}
+				if !dup {
+					*c.facts = append(*c.facts, eq)
+				}
+				return SV{t: res.t, term: app}
+			}
 			if enc.specApps == nil {
 				enc.specApps = map[string]bool{}
 			}
@@ -892,8 +915,10 @@ func isWordByte(b byte) bool {
 
 var _ = strconv.Itoa
 
-// floatBits returns a ghost bit-vector b with to_fp(b) = x.  Such a b exists for every
-// x (it is unique except for NaN), so the defining assertion never restricts x.
+// floatBits: the IEEE bit pattern of x as the application of an uninterpreted function
+// fbits with the instance to_fp(fbits(x)) = x of its defining property asserted for this x.
+// Such a pattern exists for every x (unique except for NaN, where one fixed but unknown
+// pattern stands for all NaNs, matching SMT-LIB's single NaN), so nothing is restricted.
 func (e *FnEnc) floatBits(x string) string {
 	if e.fbits == nil {
 		e.fbits = map[string]string{}
@@ -901,11 +926,59 @@ func (e *FnEnc) floatBits(x string) string {
 	if b, ok := e.fbits[x]; ok {
 		return b
 	}
-	b := e.fresh("fbits")
-	e.decls = append(e.decls, fmt.Sprintf("(declare-const %s (_ BitVec 64))", b))
+	e.R.extra("(declare-fun fbits (Float64) (_ BitVec 64))")
+	b := fmt.Sprintf("(fbits %s)", x)
 	e.decls = append(e.decls, fmt.Sprintf("(assert (= ((_ to_fp 11 53) %s) %s))", b, x))
 	e.fbits[x] = b
 	return b
+}
+
+// typeFact: a value read from memory in a specification has the invariants of its Go type
+// (slice and string lengths are non-negative and bounded).  Asserted once per term.
+func (c *evalCtx) typeFact(v SV) {
+	enc := c.f.enc
+	switch v.t.Underlying().(type) {
+	case *types.Slice, *types.Basic:
+	default:
+		return
+	}
+	if strings.Contains(v.term, "q!") {
+		return
+	}
+	inv := enc.typeInv(v.term, v.t, 0)
+	if inv == "true" {
+		return
+	}
+	if enc.typeFacts == nil {
+		enc.typeFacts = map[string]bool{}
+	}
+	if !enc.typeFacts[v.term] {
+		enc.typeFacts[v.term] = true
+		enc.decls = append(enc.decls, fmt.Sprintf("(assert %s)", inv))
+	}
+}
+
+// evalLocal evaluates a formula and returns it together with the defining equations of
+// the spec applications it contains.  Assumptions use (and facts formula), obligations
+// (=> facts formula); the equations are definitional, so both are faithful.
+func (c *evalCtx) evalLocal(text string) (string, []string) {
+	var facts []string
+	c2 := *c
+	c2.facts = &facts
+	t := c2.evalBoolText(text)
+	return t, facts
+}
+
+func (c *evalCtx) evalAssume(text string) string {
+	c2 := *c
+	c2.noOpaqueDefs = true
+	t, facts := c2.evalLocal(text)
+	return and(append(facts, t)...)
+}
+
+func (c *evalCtx) evalOblige(text string) string {
+	t, facts := c.evalLocal(text)
+	return implies(and(facts...), t)
 }
 
 // tryType resolves a type expression or returns nil.
@@ -923,4 +996,16 @@ func (c *evalCtx) tryType(s string) (t types.Type) {
 		return tv.Type
 	}
 	return nil
+}
+
+func (e *FnEnc) unfolds(spec string) bool {
+	if e.C == nil {
+		return false
+	}
+	for _, u := range e.C.Unfold {
+		if u == spec {
+			return true
+		}
+	}
+	return false
 }
